@@ -11,6 +11,7 @@ import Ptn.C16.TensorProductGraph
 import Ptn.C16.TensorProductAbsorb
 import Ptn.C16.TensorProductPerm
 import Ptn.C16.TensorProductRename
+import Ptn.C16.TensorProductSubst
 /-! Property theorems for C16. Only property theorems and non-vacuity examples live here. -/
 namespace Ptn.C16
 
@@ -889,5 +890,75 @@ example : (∀ s ∈ [1, 3], dim (Leg.gOpOut s) = dim (Leg.gKetPhys s)) ∧
     Ttndo.tpSwap [1, 3] (Leg.gKetPhys 3) = Leg.gOpOut 3 ∧ Ttndo.tpSwap [3] (Leg.gKetPhys 1) = Leg.gKetPhys 1 ∧
     rn_pairs (Ttndo.tpSwap [3]) (Ttndo.physPairs (Ttndo.ketTree st)) =
       [(Leg.gKetPhys 1, Leg.gBraPhys 1), (Leg.gOpOut 3, Leg.gBraPhys 3)] := by decide
+
+open Ptn.C04 Ptn.Ein in
+/-- **The absorption loop, tensor by tensor (B75).**  For pairwise distinct sites (`operator.items()` of a `dict`),
+after the loop the ket tensor of a named site is the original tensor with the site's operator applied on its
+physical leg, and every other ket tensor is unchanged - every list of sites, every commutative semiring. -/
+theorem tensor_product_absorbed_tensor {R : Type} [CommSemiring R] (dim : Leg → Nat) (O : Nat → Nat → Nat → R)
+    (sites : List Nat) (hnd : sites.Nodup) (kv : Nat → Asg Leg → R) (k : Nat) :
+    Ttndo.absorbedKv dim O sites kv k =
+      if k ∈ sites then Ttndo.applyAt dim (O k) (Leg.gKetPhys k) (kv k) else kv k :=
+  Ttndo.absorbedKv_at dim O sites hnd kv k
+
+open Ptn.C04 Ptn.Ein Ttndo.Demo in
+/-- non-vacuity: two distinct sites; the tensor of site 3 after the loop is `O_3` applied to the original one -/
+example : [1, 3].Nodup ∧ Ttndo.absorbedKv dim tpOD [1, 3] kvD 3 =
+    Ttndo.applyAt dim (tpOD 3) (Leg.gKetPhys 3) (kvD 3) := by
+  refine ⟨by decide, ?_⟩
+  rw [tensor_product_absorbed_tensor dim tpOD [1, 3] (by decide) kvD 3]; simp
+
+open Ptn.C04 Ptn.Ein in
+/-- **Substituting the absorbed leaf by the `tensordot` of `absorb_into_open_legs` (B75; closes item 1 of the list
+under `tensor_product_model_value_partial`).**  `e` is any strongly well-formed program in the model's labels that
+has, at the path `p`, the one-leaf absorbed tensor of a site `s ∈ sites` (legs: neighbour legs then `gOpOut s`;
+value: the pulled-back `applyAt (opMat ov s) (gKetPhys s) kvk` of `tensor_product_model_value_partial`), and in
+which the two labels bound inside the absorption, `gKetPhys s` and `gOpIn s`, do not occur.  Then the program with
+that leaf replaced by the two-leaf `tensordot` expression `absorbExpr s …` is strongly well-formed, has the same
+free legs, its record is the record of `e` plus the logged pair `(gKetPhys s, gOpIn s)` (up to order, no leg bound
+twice), and it has the same value at every assignment.  Generic part: `Ptn.Ein.Expr.sb_subst_spec`.
+PARTIAL: one site at a time (iterate over `sites`), and not yet joined with `tensor_product_model_value_partial`
+(needs the path of each absorbed leaf in a `Built` program and item 2, provenance with a pre-record). -/
+theorem tensor_product_absorbed_leaf_subst_partial {R : Type} [CommSemiring R] (dim : Leg → Nat) (sites : List Nat)
+    (s : Nat) (hs : s ∈ sites) (node : Node) (hnbr : node.nbrs.Nodup) (kvk ov : Asg Leg → R)
+    (hk : DependsOn (· ∈ (gKetT s node).legs) kvk) (ho : DependsOn (· ∈ (Ttndo.siteOpT s).legs) ov)
+    (e : Expr Leg R) (p : List Bool) (he : e.SWF)
+    (hat : e.sb_at p = some ((Ttndo.absorbExpr s node kvk ov).free,
+      rn_pull (Ttndo.tpSwap sites) (Ttndo.applyAt dim (Ttndo.opMat ov s) (Leg.gKetPhys s) kvk)))
+    (h1 : Leg.gKetPhys s ∉ e.labels) (h2 : Leg.gOpIn s ∉ e.labels) :
+    (e.sb_subst p (Ttndo.absorbExpr s node kvk ov)).SWF ∧
+    (e.sb_subst p (Ttndo.absorbExpr s node kvk ov)).free = e.free ∧
+    (e.sb_subst p (Ttndo.absorbExpr s node kvk ov)).binds.Perm (e.binds ++ [(Leg.gKetPhys s, Leg.gOpIn s)]) ∧
+    (Expr.pairLegs (e.sb_subst p (Ttndo.absorbExpr s node kvk ov)).binds).Nodup ∧
+    ∀ σ, (e.sb_subst p (Ttndo.absorbExpr s node kvk ov)).eval dim σ = e.eval dim σ :=
+  Ttndo.tp_subst_absorb dim sites s hs node hnbr kvk ov hk ho e p he hat h1 h2
+
+open Ptn.C04 Ptn.Ein Ttndo.Demo in
+/-- non-vacuity: the absorbed root ket tensor of the demo network (site 1, operator `tpOD 1`) as one leaf, contracted
+with a bra-side tensor over the model's physical pair `(gOpOut 1, gBraPhys 1)`, satisfies every hypothesis -/
+example :
+    let ov : Asg Leg → Int := fun σ => tpOD 1 (σ (Leg.gOpOut 1)) (σ (Leg.gOpIn 1))
+    let nd : Node := ⟨some 0, [3]⟩
+    let v := rn_pull (Ttndo.tpSwap [1]) (Ttndo.applyAt dim (Ttndo.opMat ov 1) (Leg.gKetPhys 1) (kvD 1))
+    let e : Expr Leg Int := .dot (.leaf (Ttndo.absorbExpr 1 nd (kvD 1) ov).free v)
+      (.leaf [Leg.gBraPhys 1] (fun σ => (σ (Leg.gBraPhys 1) : Int))) [(Leg.gOpOut 1, Leg.gBraPhys 1)]
+    nd.nbrs.Nodup ∧ DependsOn (· ∈ (gKetT 1 nd).legs) (kvD 1) ∧ DependsOn (· ∈ (Ttndo.siteOpT 1).legs) ov ∧
+    e.SWF ∧ e.sb_at [false] = some ((Ttndo.absorbExpr 1 nd (kvD 1) ov).free, v) ∧
+    Leg.gKetPhys 1 ∉ e.labels ∧ Leg.gOpIn 1 ∉ e.labels ∧
+    (e.sb_subst [false] (Ttndo.absorbExpr 1 nd (kvD 1) ov)).binds =
+      [(Leg.gOpOut 1, Leg.gBraPhys 1), (Leg.gKetPhys 1, Leg.gOpIn 1)] := by
+  intro ov nd v e
+  have hk : DependsOn (· ∈ (gKetT 1 nd).legs) (kvD 1) := kvD_local (1, some 0, [3]) (by rw [info0]; simp)
+  have ho : DependsOn (· ∈ (Ttndo.siteOpT 1).legs) ov := by
+    intro σ τ h
+    simp only [ov, h (Leg.gOpOut 1) (by simp [Ttndo.siteOpT, T.fresh]),
+      h (Leg.gOpIn 1) (by simp [Ttndo.siteOpT, T.fresh])]
+  have hx := Ttndo.absorbExpr_swf 1 nd (kvD 1) ov (by decide) hk ho
+  have hv : v = (Ttndo.absorbExpr 1 nd (kvD 1) ov).eval dim := by
+    funext σ; exact Ttndo.tpSwap_pull_absorb dim [1] 1 (by simp) nd (kvD 1) ov hk ho σ
+  refine ⟨by decide, hk, ho, ?_, rfl, by decide, by decide, by decide⟩
+  refine ⟨⟨by decide, ?_⟩, ⟨by decide, ?_⟩, by decide, by decide, by decide, by decide⟩
+  · rw [hv]; exact Expr.sb_eval_dependsOn_free dim _ hx.wf
+  · intro σ τ h; simp only [h (Leg.gBraPhys 1) (by simp)]
 
 end Ptn.C16
